@@ -219,5 +219,10 @@ def axis_of_graph(ctx, g) -> Dict[str, str]:
             out[n] = v.k if isinstance(v, Ax) else "MIXED"
     for n, why in failures.items():
         out[n] = "UNKNOWN:" + why
+    # what is computed from a node the domain could not evaluate is not known to mix anything either
+    for n in failures:
+        for d in g.descendants(n):
+            if out.get(d) == "MIXED":
+                out[d] = f"UNKNOWN:derived from `{n}`, which could not be evaluated"
     _CACHE[key] = out
     return out
